@@ -5,7 +5,7 @@ import ast
 
 from sa.engine.callgraph import calls_in, resolve_call
 from sa.engine.context import Ctx
-from sa.engine.loader import AnalysisError, FuncInfo, dotted, norm, short, walk_own
+from sa.engine.loader import AnalysisError, FuncInfo, dotted, norm, short, walk_own, anorm
 from sa.engine.report import Finding, RuleReport
 from sa.rules.common import DT, X, extractor_entries
 
@@ -547,6 +547,17 @@ def rule_input(ctx: Ctx) -> RuleReport:
 
 def _check_stream_uses(ctx, rep, fi, names, attr_alias) -> int:
     n = 0
+    # `with stream:` / `with closing(stream):` closes it on exit
+    for w in walk_own(fi.node):
+        if isinstance(w, (ast.With, ast.AsyncWith)):
+            for it in w.items:
+                e = it.context_expr
+                if isinstance(e, ast.Call) and (dotted(e.func) or "").split(".")[-1] == "closing" and e.args:
+                    e = e.args[0]
+                if (isinstance(e, ast.Name) and e.id in names) or (dotted(e) or "") in attr_alias:
+                    n += 1
+                    rep.unit(fi.key)
+                    rep.fail(Finding("C06-INPUT", fi.module.rel, fi.qual, "with " + anorm(it.context_expr, fi.node), f"`with {short(it.context_expr, 40)}:` closes the caller's input stream when the block ends: the caller (and iterate_supported_attachments' rewind) can no longer use it", line=w.lineno))
     for c in calls_in(fi):
         # method call on the stream
         if isinstance(c.func, ast.Attribute):
